@@ -153,6 +153,33 @@ impl One for R {
     open spec fn one_spec() -> R { rr(1real) }
     fn one() -> (r: R) { R { v: Ghost(1real) } }
 }
+pub trait FloatConst: Sized {
+    spec fn pi_spec() -> Self;
+    fn PI() -> (r: Self) ensures r == Self::pi_spec();
+}
+impl FloatConst for R {
+    open spec fn pi_spec() -> R { rr(pi_r()) }
+    fn PI() -> (r: R) { R { v: Ghost(pi_r()) } }
+}
+/// marker stand-in for num_traits::real::Real (its methods are inherent on R)
+pub trait Real: Sized {}
+impl Real for R {}
+pub mod num_traits {
+    use vstd::prelude::*;
+    use super::{R, floor_r, abs_r, rr};
+    pub trait Float: Sized {
+        spec fn floor_spec(self) -> Self;
+        fn floor(self) -> (r: Self) ensures r == self.floor_spec();
+        spec fn abs_spec(self) -> Self;
+        fn abs(self) -> (r: Self) ensures r == self.abs_spec();
+    }
+    impl Float for R {
+        open spec fn floor_spec(self) -> R { rr(floor_r(self.v@)) }
+        fn floor(self) -> (r: R) { R { v: Ghost(floor_r(self.v@)) } }
+        open spec fn abs_spec(self) -> R { rr(abs_r(self.v@)) }
+        fn abs(self) -> (r: R) { R { v: Ghost(abs_r(self.v@)) } }
+    }
+}
 /// stand-in for vek::ops::ColorComponent (same method signature; `full` is the opaque/maximum component value)
 pub trait ColorComponent: Zero {
     spec fn full_spec() -> Self;
@@ -209,6 +236,9 @@ pub uninterp spec fn ceil_r(x: real) -> real;
 pub uninterp spec fn round_r(x: real) -> real;
 pub uninterp spec fn eps_r() -> real;
 pub uninterp spec fn pi_r() -> real;
+pub open spec fn rel_eq_r(a: real, b: real, eps: real, mr: real) -> bool {
+    a == b || abs_r(a - b) <= eps || abs_r(a - b) <= max_r(abs_r(a), abs_r(b)) * mr
+}
 pub open spec fn abs_r(x: real) -> real { if x < 0real { -x } else { x } }
 pub open spec fn max_r(a: real, b: real) -> real { if a >= b { a } else { b } }
 pub open spec fn min_r(a: real, b: real) -> real { if a <= b { a } else { b } }
@@ -261,6 +291,13 @@ impl R {
     pub fn PI() -> (r: R) ensures r.v@ == pi_r() { R { v: Ghost(pi_r()) } }
     pub fn max(self, o: R) -> (r: R) ensures r.v@ == max_r(self.v@, o.v@) { R { v: Ghost(max_r(self.v@, o.v@)) } }
     pub fn min(self, o: R) -> (r: R) ensures r.v@ == min_r(self.v@, o.v@) { R { v: Ghost(min_r(self.v@, o.v@)) } }
+    pub fn default_epsilon() -> (r: R) ensures r.v@ == eps_r() { R { v: Ghost(eps_r()) } }
+    pub fn default_max_relative() -> (r: R) ensures r.v@ == eps_r() { R { v: Ghost(eps_r()) } }
+    /// approx::RelativeEq for floats, in exact arithmetic
+    pub fn relative_eq(&self, other: &R, epsilon: R, max_relative: R) -> (b: bool)
+        ensures b == rel_eq_r(self.v@, other.v@, epsilon.v@, max_relative.v@)
+    { ex_bool(Ghost(rel_eq_r(self.v@, other.v@, epsilon.v@, max_relative.v@))) }
+    pub fn to_degrees(self) -> (r: R) ensures r.v@ == self.v@ * 180real / pi_r() { R { v: Ghost(self.v@ * 180real / pi_r()) } }
     pub fn is_sign_negative(self) -> (b: bool) ensures b == (self.v@ < 0real) { ex_bool(Ghost(self.v@ < 0real)) }
     pub fn is_negative(&self) -> (b: bool) ensures b == (self.v@ < 0real) { ex_bool(Ghost(self.v@ < 0real)) }
     pub fn is_positive(&self) -> (b: bool) ensures b == (self.v@ > 0real) { ex_bool(Ghost(self.v@ > 0real)) }
